@@ -20,7 +20,8 @@ DESIGN_REF = "DESIGN.md §4 C01"
 RULE = (
     "cases = (config: recursive, str|bytes root, read-buffer size, normal|generate_full_events emitter; initial tree; list of bursts of ops with "
     "micro-sleeps); random part: Hypothesis histories of 1-4 (quick) / 1-8 (thorough) bursts of <= 6 ops over names "
-    "{a,b,c}, depth <= 3, with files and pre-built trees in out/ to move in; exhaustive part: every valid history of "
+    "{a,ab,b}, depth <= 3, with files and pre-built trees in out/ to move in (to a free name, or replacing a file / an "
+    "empty directory); exhaustive part: every valid history of "
     "length <= 2 over names {a,ab} (one a prefix of the other), depth <= 2 from 3 start states, each back-to-back (where the pacing rule allows) and "
     "drained after every op.  non-trivial = the history has a directory op on a non-empty directory, or a move across "
     "the tree boundary, or a burst of >= 2 ops one of which is a directory op; distinct = digest of (config, "
@@ -196,7 +197,7 @@ def cases(draw, tier, opts_extra=None):
         "bufsize": draw(st.sampled_from(BUFSIZES)),
         "full": draw(st.sampled_from([False, False, True])),
     }
-    opts = {"max_bursts": 4 if tier == "quick" else 8, "max_ops": 6}
+    opts = {"max_bursts": 4 if tier == "quick" else 8, "max_ops": 6, "move_in_replace": True}
     if opts_extra:
         opts.update(opts_extra)
     h = draw(fsops.histories(opts))
@@ -210,8 +211,20 @@ START_STATES = [
 ]
 
 
+# longer fixed histories that the bounded enumeration cannot reach (depth 3, 3+ ops)
+SCENARIOS = [
+    # a tree moved in from outside replaces an existing empty directory, then something happens in its sub-directory
+    ([["mkdir", "b"], ["prebuild", "o1", [["a", "d"], ["a/ab", "f"]], "d"]], [[["move_in", "o1", "b"]], [["create", "b/a/a"]], [["mkdir", "b/a/b"]], [["rename", "b/a", "ab"]]]),
+    ([["mkdir", "a"], ["mkdir", "a/b"], ["prebuild", "o1", [["a", "d"]], "d"]], [[["move_in", "o1", "a/b"], ["rename", "a", "ab"]], [["create", "ab/b/a/a"]]]),
+    # a file moved in from outside replaces a file
+    ([["create", "a"], ["prebuild", "o1", [], "f"]], [[["move_in", "o1", "a"]], [["unlink", "a"]]]),
+    # a directory leaves and comes straight back under another name, then something happens inside
+    ([["mkdir", "a"], ["mkdir", "a/ab"]], [[["move_out", "a", "x0"], ["move_in", "x0", "b"]], [["create", "b/ab/a"]]]),
+]
+
+
 def exhaustive_histories(maxlen):
-    opts = {"names": ["a", "ab"], "depth": 2}
+    opts = {"names": ["a", "ab"], "depth": 2, "move_in_replace": True}
     for init in START_STATES:
         m0 = fsops.model_after_init(init)
 
@@ -269,10 +282,11 @@ def run_shard(spec):
         n = 0
         st_.exhaustive = True
         cfgs = [{"recursive": True}, {"recursive": False}, {"recursive": True, "full": True}] if tier == "thorough" else [{"recursive": True}, {"recursive": True, "full": True}]
-        for k, (init, bursts) in enumerate(exhaustive_histories(maxlen)):
-            if k % NSH != i:
+        todo = [(-1, sc) for j, sc in enumerate(SCENARIOS) if j % NSH == i] + list(enumerate(exhaustive_histories(maxlen)))
+        for k, (init, bursts) in todo:
+            if k >= 0 and k % NSH != i:
                 continue
-            if tier == "quick" and (k // NSH) % 4 != seed % 4:
+            if k >= 0 and tier == "quick" and (k // NSH) % 4 != seed % 4:
                 st_.exhaustive = False
                 continue
             for cfg in cfgs:
